@@ -21,6 +21,9 @@ CLAIMED = {
  "C09": ("guard-dominance on pre-checks, acquire/release pairing of the block gas pool over all exits, once-per-path nonce increment, snapshot/revert pairing in call frames, operand-shape checks of refund/fee/transfer arithmetic",
          "Decides that gas is bought only behind nonce/balance/pool checks for gas*price, that every exit after the purchase returns the remainder to the pool (three early error returns are open findings), one nonce bump per executed path, the min(gasUsed/2, refund) shape, fee after refund on gasUsed*price, snapshot-before-mutation and revert-on-error in all five frame functions, and revert-and-skip of failing transactions in block commit. Does not decide the balance-sum equation over arbitrary bytecode.",
          "DESIGN.md §4 C09"),
+ "C10": ("table cross-check: jump-table literals (AST, helper calls constant-folded) vs a Yellow-Paper arity/flag table shipped with the checker vs an abstract interpretation of every instruction implementation over the stack-depth domain (closures with bound constants, loops unrolled by constant propagation); guard-dominance in the interpreter loop and frame functions",
+         "Decides for all 140 opcodes that declared stack bounds equal the specification, that each implementation touches at most `pops` items and changes the height by pushes-pops on every success exit, that memory/gas helpers look no deeper, that memory use implies a size function and state mutation implies the writes flag, and that the interpreter executes only behind opcode/stack/read-only/gas/memory guards with depth-limited, read-only-propagating frames and validated jumps. Does not decide equivalence with a reference EVM or absence of all implicit panics.",
+         "DESIGN.md §4 C10"),
  "C11": ("field-flow coverage of the canonical sign-bytes builders and signing hashes + sign/verify sibling agreement (same canonicaliser callee) + guard-dominance on recovery and signature-value checks",
          "Decides that every field of the signed canonical vote/proposal comes from the message (flags the hard-coded vote type as an open finding), that all sign and verify sites hash the same canonical bytes, that VerifySignature/Vote.Verify bind the signer, and that transaction signing hashes cover all fields with chain-id and high-s rejection before recovery. Cryptographic strength is trusted, not decided.",
          "DESIGN.md §4 C11"),
